@@ -1,12 +1,389 @@
-// Package c14 decides C14 (see /verif/DESIGN.md §7).
+// Package c14 decides C14: the block store behaves like a height-indexed map, atomically and
+// durably (see /verif/DESIGN.md §7).
+//
+// Generated operation sequences are run on the real store over (a) the in-memory datastore
+// double, whose write log shows what one SaveBlockData makes durable and which can be crashed
+// after any number of durable writes, and (b) real Badger on disk with close + reopen; a child
+// process writing to Badger is killed at seeded instants (kill.go). Every read is compared with a
+// reference model that keeps one map per kind of record (model.go).
 package c14
 
-import "verifharness/vk"
+import (
+	"context"
+	"fmt"
+	"os"
+	"path/filepath"
+	"sort"
+	"strings"
+	"sync"
+
+	ds "github.com/ipfs/go-datastore"
+
+	"github.com/evstack/ev-node/pkg/store"
+
+	"verifharness/vk"
+	"verifharness/world"
+)
 
 // Level is the verification level claimed for this property.
 const Level = "exploration"
 
+func materialisePool(specs []BlockSpec) ([]*Blk, error) {
+	pool := make([]*Blk, len(specs))
+	for i, sp := range specs {
+		b, err := materialise(sp)
+		if err != nil {
+			return nil, err
+		}
+		pool[i] = b
+	}
+	return pool, nil
+}
+
+// universe returns every height and metadata key a sequence mentions, plus one never used.
+func universe(s Sequence) ([]uint64, []string) {
+	hs := map[uint64]bool{424242: true}
+	ks := map[string]bool{"d": true, "l": true, "last-submitted-header-height": true, "last-submitted-data-height": true, "rhb/424242/h": true}
+	for _, sp := range s.Pool {
+		hs[sp.Height] = true
+	}
+	for _, o := range s.Ops {
+		switch o.K {
+		case "getblock", "getheader", "getsig":
+			hs[o.H] = true
+		case "setmeta", "getmeta":
+			ks[o.Key] = true
+		}
+	}
+	heights := make([]uint64, 0, len(hs))
+	for h := range hs {
+		heights = append(heights, h)
+	}
+	sort.Slice(heights, func(i, j int) bool { return heights[i] < heights[j] })
+	keys := make([]string, 0, len(ks))
+	for k := range ks {
+		keys = append(keys, k)
+	}
+	sort.Strings(keys)
+	return heights, keys
+}
+
+// doWrite performs a write operation on the store.
+func doWrite(ctx context.Context, st store.Store, op Op, pool []*Blk) error {
+	switch op.K {
+	case "save_new", "save_same", "save_diff":
+		sig := append(pool[op.Dat].Sig[:0:0], pool[op.Dat].Sig...)
+		return st.SaveBlockData(ctx, pool[op.Blk].Header, pool[op.Dat].Data, &sig)
+	case "setheight":
+		return st.SetHeight(ctx, op.H)
+	case "state":
+		return st.UpdateState(ctx, mkState(op.St))
+	case "setmeta":
+		return st.SetMetadata(ctx, op.Key, op.Val)
+	}
+	return nil
+}
+
+func isSave(k string) bool { return k == "save_new" || k == "save_same" || k == "save_diff" }
+
+type seqResult struct {
+	probs  []string
+	writes int
+}
+
+// runMem runs the sequence on the in-memory datastore. crashAfter < 0: no crash; every read is
+// checked and the write log is inspected. crashAfter = k: the first k durable writes succeed, the
+// process dies at the next one; reads are skipped; the frozen image is then opened by a fresh
+// store and compared with the model after exactly the completed operations.
+func runMem(r *vk.Run, s Sequence, pool []*Blk, heights []uint64, keys []string, crashAfter int) seqResult {
+	ctx := context.Background()
+	im := world.NewImage()
+	dsp := world.NewMemDS(im)
+	if crashAfter >= 0 {
+		dsp.CrashAfter(crashAfter)
+	}
+	st := store.New(dsp)
+	m := newModel()
+	res := seqResult{}
+	ck := &checker{ctx: ctx, st: st, m: m, hit: r.Hit, count: r.Count}
+	if crashAfter >= 0 {
+		ck.hit = func(string) {}
+	}
+	var cut *Op
+	for i, op := range s.Ops {
+		ck.where = fmt.Sprintf("op %d %s: ", i, op.K)
+		if op.K == "reopen" {
+			// a new process over the same durable image
+			w := dsp.Writes()
+			dsp = world.NewMemDS(im)
+			if crashAfter >= 0 {
+				dsp.CrashAfter(crashAfter - res.writes)
+			}
+			_ = w
+			st = store.New(dsp)
+			ck.st = st
+			if crashAfter < 0 {
+				ck.where = fmt.Sprintf("after reopen at op %d: ", i)
+				n := len(ck.probs)
+				ck.all(heights, pool, keys)
+				r.Hit("reopen-preserves-everything")
+				if len(ck.probs) > n {
+					break
+				}
+			}
+			continue
+		}
+		if !writeKinds[op.K] {
+			if crashAfter < 0 {
+				ck.read(op, pool)
+			}
+			continue
+		}
+		before := dsp.Writes()
+		err := doWrite(ctx, st, op, pool)
+		did := dsp.Writes() - before
+		res.writes += did
+		if err != nil {
+			if crashAfter >= 0 && dsp.Crashed() {
+				o := op
+				cut = &o
+				break
+			}
+			ck.fail("write-ok", "%s failed on a healthy datastore: %v", op.K, err)
+			break
+		}
+		m.apply(op, pool)
+		if crashAfter < 0 && isSave(op.K) {
+			// what one SaveBlockData makes durable: exactly one write, a batch of the four records
+			r.Hit("save-is-one-write")
+			log := dsp.Log()
+			if did != 1 {
+				ck.fail("save-is-one-write", "SaveBlockData(height %d) issued %d durable writes: %v", op.H, did, world.FormatLog(log[len(log)-did:]))
+			} else {
+				rec := log[len(log)-1]
+				distinct := map[string]bool{}
+				for _, k := range rec.Keys {
+					distinct[k] = true
+				}
+				if rec.Op != "batch" || len(rec.Keys) != 4 || len(distinct) != 4 {
+					ck.fail("save-is-one-write", "SaveBlockData(height %d) wrote %s %v, expected one batch of four records", op.H, rec.Op, rec.Keys)
+				}
+			}
+		}
+	}
+	if crashAfter < 0 {
+		ck.where = "at the end: "
+		ck.all(heights, pool, keys)
+		res.probs = ck.probs
+		return res
+	}
+	// crash case: a fresh store over the frozen image
+	st2 := store.New(world.NewMemDS(im))
+	ck2 := &checker{ctx: ctx, st: st2, m: m, hit: func(string) {}, count: func(string, int64) {}}
+	cutS := "none (the sequence completed)"
+	if cut != nil {
+		cutS = fmt.Sprintf("%s at height %d", cut.K, cut.H)
+	}
+	ck2.where = fmt.Sprintf("crash after durable write %d, operation cut: %s; after restart: ", crashAfter, cutS)
+	ck2.all(heights, pool, keys)
+	r.Hit("crash-state-equals-completed-ops")
+	if cut != nil && isSave(cut.K) {
+		r.Hit("crash-save-all-or-nothing")
+		if _, occupied := m.Hdr[cut.H]; occupied {
+			r.Hit("crash-overwrite-all-or-nothing")
+		}
+	}
+	res.probs = append(ck.probs, ck2.probs...)
+	return res
+}
+
+// forkMu keeps a Badger close apart from a concurrent fork+exec (kill.go): between fork and exec
+// the child shares the open file description carrying Badger's directory flock, so a close in
+// that window leaves the lock held and the next open of the directory fails.
+var forkMu sync.RWMutex
+
+func closeDS(d ds.Batching) error {
+	forkMu.RLock()
+	defer forkMu.RUnlock()
+	return d.Close()
+}
+
+// runBadger runs the sequence on real Badger on disk; reopen = Close + NewDefaultKVStore.
+func runBadger(r *vk.Run, base string, s Sequence, pool []*Blk, heights []uint64, keys []string) []string {
+	ctx := context.Background()
+	dir := filepath.Join(base, fmt.Sprintf("s%d", s.ID))
+	defer os.RemoveAll(dir)
+	kvs, err := store.NewDefaultKVStore(dir, "db", "c14")
+	if err != nil {
+		return []string{"badger-open: " + err.Error()}
+	}
+	st := store.New(kvs)
+	m := newModel()
+	ck := &checker{ctx: ctx, st: st, m: m, hit: func(c string) { r.Hit("badger:" + c) }, count: r.Count}
+	reopen := func(where string) bool {
+		if err := closeDS(kvs); err != nil {
+			ck.fail("badger-reopen", "%sClose: %v", where, err)
+			return false
+		}
+		kvs, err = store.NewDefaultKVStore(dir, "db", "c14")
+		if err != nil {
+			ck.fail("badger-reopen", "%sreopen: %v", where, err)
+			return false
+		}
+		st = store.New(kvs)
+		ck.st = st
+		ck.where = where
+		n := len(ck.probs)
+		ck.all(heights, pool, keys)
+		r.Hit("badger:close-reopen-preserves-everything")
+		return len(ck.probs) == n
+	}
+	ok := true
+	for i, op := range s.Ops {
+		ck.where = fmt.Sprintf("badger op %d %s: ", i, op.K)
+		if op.K == "reopen" {
+			if ok = reopen(fmt.Sprintf("badger, after close+reopen at op %d: ", i)); !ok {
+				break
+			}
+			continue
+		}
+		if !writeKinds[op.K] {
+			ck.read(op, pool)
+			continue
+		}
+		if err := doWrite(ctx, st, op, pool); err != nil {
+			ck.fail("write-ok", "%s failed: %v", op.K, err)
+			ok = false
+			break
+		}
+		m.apply(op, pool)
+	}
+	if ok && kvs != nil {
+		ck.where = "badger, at the end: "
+		ck.all(heights, pool, keys)
+		reopen("badger, after final close+reopen: ")
+	}
+	if kvs != nil {
+		_ = closeDS(kvs)
+	}
+	return ck.probs
+}
+
+func clauseOf(p string) string {
+	if i := strings.Index(p, ":"); i > 0 {
+		return p[:i]
+	}
+	return "store"
+}
+
+func runSequence(r *vk.Run, base string, s Sequence) {
+	pool, err := materialisePool(s.Pool)
+	if err != nil {
+		r.Inconclusive(fmt.Sprintf("sequence %d: cannot build blocks: %v", s.ID, err))
+		return
+	}
+	heights, keys := universe(s)
+	witness := func(extra map[string]any) any {
+		w := map[string]any{"sequence": s}
+		for k, v := range extra {
+			w[k] = v
+		}
+		return w
+	}
+	res := runMem(r, s, pool, heights, keys, -1)
+	onlyWriteShape := true // the crash enumeration is still meaningful if reads were all right
+	for _, p := range res.probs {
+		if clauseOf(p) != "save-is-one-write" {
+			onlyWriteShape = false
+		}
+	}
+	if len(res.probs) > 0 {
+		r.Violation(clauseOf(res.probs[0]), fmt.Sprintf("sequence %d (in-memory datastore): %s", s.ID, strings.Join(trim(res.probs, 6), " ;; ")), witness(map[string]any{"datastore": "memds"}))
+	}
+	if s.Crash && onlyWriteShape {
+		// crash enumeration: die at every durable write of the sequence
+		for k := 0; k < res.writes; k++ {
+			cr := runMem(r, s, pool, heights, keys, k)
+			r.Count("crash_points", 1)
+			if len(cr.probs) > 0 {
+				r.Violation("crash-"+clauseOf(cr.probs[0]), fmt.Sprintf("sequence %d: %s", s.ID, strings.Join(trim(cr.probs, 6), " ;; ")), witness(map[string]any{"datastore": "memds", "crash_after_writes": k}))
+				break
+			}
+		}
+	}
+	r.Count("durable_writes", int64(res.writes))
+	if s.Badger {
+		if probs := runBadger(r, base, s, pool, heights, keys); len(probs) > 0 {
+			if strings.Contains(probs[0], "Cannot acquire directory lock") {
+				r.Inconclusive(fmt.Sprintf("sequence %d: %s", s.ID, probs[0]))
+			} else {
+				r.Violation("badger-"+clauseOf(probs[0]), fmt.Sprintf("sequence %d (Badger on disk): %s", s.ID, strings.Join(trim(probs, 6), " ;; ")), witness(map[string]any{"datastore": "badger"}))
+			}
+		}
+		r.Count("sequences_on_badger", 1)
+	}
+	for _, o := range s.Ops {
+		r.Count("ops_"+o.K, 1)
+	}
+	r.Eval(s.abstract(), s.nontrivial(), s.sample())
+}
+
+func trim(s []string, n int) []string {
+	if len(s) > n {
+		return append(append([]string{}, s[:n]...), fmt.Sprintf("… and %d more", len(s)-n))
+	}
+	return s
+}
+
 // Run is the check entry point.
 func Run(r *vk.Run) {
-	r.Rule = "not implemented yet"
+	world.Silence()
+	r.Rule = "seeded sequences of 30-200 store operations (save at a fresh height / same header again with same or other data+signature / another header at an occupied height; SetHeight lower|equal|higher; UpdateState; SetMetadata over the node's keys d, l, last-submitted-*-height, rhb/<h>/h|d; every read on present and missing targets incl. hashes of overwritten headers; reopen) over 4-14 heights from small runs and boundary values; each sequence runs on the in-memory datastore, with a crash at every one of its durable writes (quick: for every third sequence), one in four also on Badger on disk with close+reopen; non-trivial = >=1 overwrite or reopen; distinct by operation-kind sequence"
+	r.Assume("in-memory runs: Batch.Commit of the datastore double is atomic and Put is durable (checked against real Badger only by close+reopen and process kill)")
+	r.Assume("process kill, not power loss")
+	r.Assume("header/data encodings are those of the types package (their fidelity is C12's subject); headers are signed with the harness's key and verified with the harness's copy of the public key")
+	base := world.TempDir(vk.Root(), "C14-*")
+	defer os.RemoveAll(base)
+
+	rng := r.Rand("sequences")
+	n := r.N(500, 20000)
+	seqs := make([]Sequence, n)
+	for i := range seqs {
+		seqs[i] = genSequence(rng, i, i%4 == 0)
+		// quick: every third sequence gets the crash enumeration (all of its write indices); thorough: all
+		seqs[i].Crash = !r.Quick() || i%3 == 0
+	}
+	r.Require("read-block", int64(n)*10)
+	r.Require("read-by-hash", int64(n)*10)
+	r.Require("read-signature", int64(n)*10)
+	r.Require("read-state", int64(n))
+	r.Require("read-metadata", int64(n)*5)
+	r.Require("read-missing", int64(n)*10)
+	r.Require("height-running-max", int64(n))
+	r.Require("save-is-one-write", int64(n)*5)
+	r.Require("reopen-preserves-everything", int64(n))
+	r.Require("crash-state-equals-completed-ops", int64(n)*3)
+	r.Require("crash-save-all-or-nothing", int64(n))
+	r.Require("crash-overwrite-all-or-nothing", int64(n)/2)
+	r.Require("badger:close-reopen-preserves-everything", int64(n)/4)
+	r.Require("badger:read-block", int64(n))
+
+	var wg sync.WaitGroup
+	ch := make(chan Sequence)
+	for w := 0; w < 16; w++ {
+		wg.Add(1)
+		go func() {
+			defer wg.Done()
+			for s := range ch {
+				runSequence(r, base, s)
+			}
+		}()
+	}
+	for _, s := range seqs {
+		ch <- s
+	}
+	close(ch)
+	wg.Wait()
+
+	runKills(r, base)
 }
